@@ -77,15 +77,24 @@ class Client:
                 return out
             self.buf += d
     def barrier(self, timeout=5.0):
-        """PING/PONG round trip: everything the server queued for us before answering is returned"""
+        """two PING/PONG round trips: everything the server queued for us before is returned (select! may answer the first PING before it
+        forwards messages already queued for this connection; while the second PING travels the loop has nothing else to do but forward them)"""
+        got = self._barrier1(timeout)
+        if got and got[-1] in (b'<EOF>', b'<TIMEOUT>'): return got
+        return got + self._barrier1(timeout)
+    def _barrier1(self, timeout=5.0):
         self.k += 1
         tok = f'sync{self.k}x'
         self.send('PING ' + tok)
         got = []
         end = time.time() + timeout
         while time.time() < end:
-            for l in self._read_lines(min(0.5, max(0.01, end - time.time()))):
+            batch = self._read_lines(min(0.5, max(0.01, end - time.time())))
+            for i, l in enumerate(batch):
                 if l.endswith((':' + tok).encode()) and b' PONG ' in l:
+                    # lines of this batch after the PONG go back to the buffer (they belong to the next read)
+                    rest = batch[i + 1:]
+                    if rest: self.buf = b''.join(x + b'\r\n' for x in rest) + self.buf
                     self.log.extend(got)
                     return got
                 got.append(l)
@@ -122,8 +131,12 @@ def make_config(spec, model, hashes, helper=None):
     for c in spec.chans:
         if model.get(f'exists_{c}') and model.get(f'preconf_{c}'):
             lines += ['[[channels]]', f'name = {toml_str(c)}', '[channels.modes]']
-            if helper:
-                lines += [f'founders = [ {toml_str(helper)} ]', f'operators = [ {toml_str(helper)} ]']
+            from .world import RANKS
+            cfgname = {'founder': 'founders', 'protected': 'protecteds', 'operator': 'operators', 'half_oper': 'half_operators', 'voice': 'voices'}
+            for r in RANKS:
+                who = [n for n in spec.nicks if model.get(f'def_{r}_{n}_{c}')]
+                if helper and r in ('founder', 'operator'): who = [helper] + who
+                if who: lines.append(f'{cfgname[r]} = [ ' + ', '.join(toml_str(x) for x in who) + ' ]')
             lines += ['moderated = false', 'invite_only = false', 'secret = false', 'protected_topic = false', 'no_external_messages = false']
     return '\n'.join(lines) + '\n'
 
@@ -265,8 +278,16 @@ _LISTLINE = re.compile(r'^(:\S+ (?:353|319) .*? :)(.*)$', re.S)
 def canon_line(t):
     """RPL_NAMREPLY / RPL_WHOISCHANNELS list their items in hash-map order: compare them as sets"""
     m = _LISTLINE.match(t)
-    if not m: return t
-    return m.group(1) + ' '.join(sorted(m.group(2).split(' ')))
+    if m: return m.group(1) + ' '.join(sorted(m.group(2).split(' ')))
+    if ' 324 ' in t:
+        tk = t.split(' ')
+        # :srv 324 nick chan modes [mode params] then '+X arg' pairs of the list modes (hash-set order)
+        for i in range(5, len(tk)):
+            rest = tk[i:]
+            if len(rest) % 2 == 0 and all(re.fullmatch(r'\+[A-Za-z]', rest[j]) for j in range(0, len(rest), 2)):
+                pairs = sorted((rest[j], rest[j + 1]) for j in range(0, len(rest), 2))
+                return ' '.join(tk[:i] + [x for pr in pairs for x in pr])
+    return t
 
 def line_regex(buf):
     from .models.fmt_m import DecSeg
@@ -342,13 +363,19 @@ def replay_witness(run, prog, case, witness, release=False, probes=True):
         for n in order:
             c = Client(srv.port, n); clients[n] = c
             if spec.password: c.send('PASS ' + spec.password)
+            mp = bool(model.get(f'multi_prefix_{n}'))
+            if mp: c.send('CAP LS'); c.send('CAP REQ :multi-prefix')
             c.send(f'NICK {n}'); c.send(f'USER {n} 0 * :Real {n}')
+            if mp: c.send('CAP END')
             got = c.barrier()
             if not any(b' 001 ' in l for l in got):
                 return None, f'registration of {n} failed: {got[-3:]}'
         for n, line in setup:
             clients[n].send(line)
-            clients[n].barrier()
+            got = clients[n].barrier()
+            bad = [l for l in got if re.match(rb':\S+ (4\d\d|9\d\d) ', l)]
+            if bad:
+                return None, f'pre-state not reachable through the protocol: set-up step {line!r} by {n} is refused: {bad[0][:120]!r}'
         for n in nicks: clients[n].barrier()
         # the step and the probes
         line = witness['line']
